@@ -165,28 +165,28 @@ Proof. unfold Inv, v_as_scalar; cbn. lia. Qed.
 
 (* what read_from does guarantee: when the product does not wrap, the ACTIVE part fits *)
 Lemma read_from_active_fits (v v' : vhdr) (h : stream_hdr) (avail : Z) :
-  0 <= s_n h * s_cols h * s_size h * 8 < U64 -> v_w v = 8 ->
+  0 <= sh_n h * sh_cols h * sh_size h * 8 < U64 -> v_w v = 8 ->
   v_read_from v h avail = ROk v' ->
   v_n v' * v_cols v' * v_size v' * v_w v' <= v_len v' /\ v_len v' = v_len v.
 Proof.
   intros Hr Hw. unfold v_read_from. rewrite Z.mod_small by exact Hr.
-  destruct (Z.eqb_spec (s_n h * s_cols h * s_size h * 8) (s_len h)) as [E|]; [|discriminate]. cbn [negb].
-  destruct (Z.ltb_spec (v_len v) (s_len h)); [discriminate|].
-  destruct (Z.ltb_spec avail (s_len h)); [discriminate|].
+  destruct (Z.eqb_spec (sh_n h * sh_cols h * sh_size h * 8) (sh_len h)) as [E|]; [|discriminate]. cbn [negb].
+  destruct (Z.ltb_spec (v_len v) (sh_len h)); [discriminate|].
+  destruct (Z.ltb_spec avail (sh_len h)); [discriminate|].
   intros R; inversion R; subst; cbn. rewrite Hw. lia.
 Qed.
 
 (* full Inv needs two more facts about the header that nothing checks *)
 Lemma read_from_inv_partial (v v' : vhdr) (h : stream_hdr) (avail : Z) :
-  0 <= s_n h * s_cols h * s_size h * 8 < U64 -> v_w v = 8 ->
-  s_size h <= s_max h -> s_n h * s_cols h * s_max h * 8 <= v_len v ->
+  0 <= sh_n h * sh_cols h * sh_size h * 8 < U64 -> v_w v = 8 ->
+  sh_size h <= sh_max h -> sh_n h * sh_cols h * sh_max h * 8 <= v_len v ->
   v_read_from v h avail = ROk v' -> Inv v'.
 Proof.
   intros Hr Hw Hsm Hcap R. pose proof (read_from_active_fits v v' h avail Hr Hw R) as (H1 & H2).
   unfold v_read_from in R. rewrite Z.mod_small in R by exact Hr.
-  destruct (Z.eqb_spec (s_n h * s_cols h * s_size h * 8) (s_len h)); [|discriminate]. cbn [negb] in R.
-  destruct (Z.ltb_spec (v_len v) (s_len h)); [discriminate|].
-  destruct (Z.ltb_spec avail (s_len h)); [discriminate|].
+  destruct (Z.eqb_spec (sh_n h * sh_cols h * sh_size h * 8) (sh_len h)); [|discriminate]. cbn [negb] in R.
+  destruct (Z.ltb_spec (v_len v) (sh_len h)); [discriminate|].
+  destruct (Z.ltb_spec avail (sh_len h)); [discriminate|].
   inversion R; subst; cbn in *. unfold Inv; cbn. rewrite Hw in *. lia.
 Qed.
 
@@ -195,7 +195,7 @@ Qed.
 Lemma read_from_max_size_refuted :
   exists writer receiver v' grown,
     wf_v writer /\ Inv writer /\ wf_v receiver /\ Inv receiver /\
-    v_read_from receiver (v_write_hdr writer) (s_len (v_write_hdr writer)) = ROk v' /\ ~ Inv v' /\
+    v_read_from receiver (v_write_hdr writer) (sh_len (v_write_hdr writer)) = ROk v' /\ ~ Inv v' /\
     v_set_size v' (v_max v') = Some grown /\
     ~ (at_end grown 0 (v_size grown - 1) <= cap_words grown).
 Proof.
